@@ -469,8 +469,16 @@ func main() {
 		}
 		dir, _ := ioutil.TempDir("", "csim-live-")
 		defer os.RemoveAll(dir)
-		sim, evs, rerr := csim.RunLive(dir, powersOf(cfg), intsOf(cfg["Byz"]), int64(mbt.Int(cfg["MaxRound"])),
-			int64(mbt.Int(cfg["Heights"])), int64(mbt.Int(cfg["Seed"])), time.Duration(mbt.Int(cfg["LimitMs"]))*time.Millisecond, scaleOf(cfg), cfg["ByzActive"] == true)
+		var sim *csim.Sim
+		var evs []csim.LiveEvent
+		var rerr error
+		if cfg["Stack"] == true {
+			sim, evs, rerr = csim.RunLiveStack(dir, powersOf(cfg), intsOf(cfg["Byz"]), int64(mbt.Int(cfg["MaxRound"])),
+				int64(mbt.Int(cfg["Heights"])), time.Duration(mbt.Int(cfg["LimitMs"]))*time.Millisecond, scaleOf(cfg))
+		} else {
+			sim, evs, rerr = csim.RunLive(dir, powersOf(cfg), intsOf(cfg["Byz"]), int64(mbt.Int(cfg["MaxRound"])),
+				int64(mbt.Int(cfg["Heights"])), int64(mbt.Int(cfg["Seed"])), time.Duration(mbt.Int(cfg["LimitMs"]))*time.Millisecond, scaleOf(cfg), cfg["ByzActive"] == true)
+		}
 		res := map[string]interface{}{"events": len(evs)}
 		if rerr != nil {
 			res["error"] = rerr.Error()
